@@ -81,6 +81,8 @@ def dispatch (op : String) (args : List SExp) : Option OpResult :=
   | "cli.meth" => opCliMeth args
   | "srv.req" => opSrvReq args
   | "srv.obj" => opSrvObj args
+  | "srv.fail" => opSrvFail args
+  | "srv.wellknown" => opSrvWellKnown args
   | "cal.enc" => opCalEnc args
   | "cal.dec" => opCalDec args
   | "cal.encmg" => opCalEncMg args
